@@ -368,8 +368,11 @@ def unit_between(inj, scratch):
     frag_begin(inj)
     s = src('src/parser.rs', scratch)
     it = s.fn('parse_cond', impl='Parser')
-    a, b0, b1 = s.arm(r'Some\(Lexem::Operator\(s\)\)\s+if\s+s\.as_str\(\)\s*==\s*"between"', s.body_span(it),
-                      what='parse_cond: arm `Some(Lexem::Operator(s)) if s.as_str() == "between"`', on_text=True)
+    gm = s.find_one(r'Some\(Lexem::Operator\(s\)\)\s+if\s+([^=>{]*?==\s*"between")\s*=>', s.body_span(it),
+                    what='parse_cond: arm `Some(Lexem::Operator(s)) if <guard on s> == "between"`', on_text=True)
+    guard = gm.group(1)
+    a, b0, b1 = s.arm(r'Some\(Lexem::Operator\(s\)\)\s+if\s+[^=>{]*?==\s*"between"', s.body_span(it),
+                      what='parse_cond: between arm', on_text=True)
     ms = s.find_all(r'match\s+not\s*\{', (b0, b1))
     if len(ms) != 3:
         raise AnchorLost(f'parse_cond between arm: expected 3 `match not {{..}}` expressions, found {len(ms)}')
@@ -389,6 +392,7 @@ def unit_between(inj, scratch):
     text = f'''pub mod between {{
 use super::*;
 use super::cmp::*;
+pub fn frag_is_between(s: String) -> bool {{ {guard} }}
 pub fn frag_between(not: bool) -> (Op, LogicalOp, Op) {{
     let low_op = {exprs[0]};
     let high_op = {exprs[1]};
@@ -985,3 +989,38 @@ def unit_flat(inj, scratch):
                        dedent(body), gen, ['format!(T, a..) -> concatenation (plain {} placeholders only)'], 'the core::fmt machinery')
     return dict(functions=[r, fn_record(s, 'row_ended', 'K', how='whole function; postcondition asserted in an appended harness')], dropped=[d],
                 assumptions=['format! with plain {} placeholders concatenates (std, T2)'])
+
+
+# --------------------------------------------------------------------------------------------------
+# Lexer::next_lexem(): keyword / operator-word table (C11)
+# --------------------------------------------------------------------------------------------------
+def unit_lexwords(inj, scratch):
+    frag_begin(inj)
+    s = src('src/lexer.rs', scratch)
+    it = s.fn('next_lexem', impl='Lexer')
+    a, b0, b1 = s.arm(r'LexingMode::RawString', (s.find_one(r'let\s+lexem\s*=\s*match\s+mode\s*\{', s.body_span(it), what='next_lexem: let lexem = match mode {').end(), it['close']),
+                      what='next_lexem: final `LexingMode::RawString => match s.to_lowercase().as_str() {..}` arm')
+    block = dedent(s.text[b0:b1])
+    if not re.match(r'match\s+s\.to_lowercase\(\)\.as_str\(\)\s*\{', block):
+        raise AnchorLost('next_lexem: RawString arm is not `match s.to_lowercase().as_str() {..}`')
+    text = f'''pub mod lexwords {{
+use super::*;
+use crate::lexer::Lexem;
+pub struct FragLexer {{ pub before_from: bool, pub after_where: bool }}
+pub const ASC_SKIPPED: &str = "\\u{{0}}NEXT-TOKEN";
+impl FragLexer {{
+    // stands for the recursive call that fetches the token after `asc`
+    fn next_lexem(&mut self) -> Option<Lexem> {{ Some(Lexem::RawString(String::from(ASC_SKIPPED))) }}
+    // ---- verbatim: the RawString arm of the final `match mode` of Lexer::next_lexem ----
+    pub fn classify(&mut self, s: String) -> Option<Lexem> {{
+        {block}
+    }}
+}}
+{H('frag_lexwords.kani.rs')}
+}}
+'''
+    inj.new_file(FRAG_FILE, text)
+    r, d = frag_record('FragLexer::classify', 'src/lexer.rs', 'fn Lexer::next_lexem / arm `LexingMode::RawString => match s.to_lowercase().as_str() {..}` of the final `match mode` (verbatim, as a method of a shim lexer)',
+                       block, block, ['receiver Lexer -> FragLexer { before_from, after_where }; the recursive self.next_lexem() after `asc` returns a sentinel token'],
+                       'character scanning (how a word is delimited), quote handling, date / expression look-ahead')
+    return dict(functions=[r], dropped=[d])
